@@ -152,6 +152,9 @@ func icJSONGet(ex *Exec, fr *frame, fn *ssaFunction, args []Value, pos tokenPos)
 				if it, ok := fv.intTerm(); ok {
 					return TupleV{mkFromInt(it), tTrue}
 				}
+				if b, err := json.Marshal(fv.f); err == nil {
+					return TupleV{mkStr(string(b)), tTrue}
+				}
 				return TupleV{mkStr(strconv.FormatFloat(fv.f, 'g', -1, 64)), tTrue}
 			}
 		case "bool":
